@@ -5,11 +5,13 @@
 package typedx
 
 import (
-	"os"
 	"bytes"
 	"encoding/base64"
 	"encoding/json"
+	"errors"
 	"fmt"
+	"github.com/ipld/go-ipld-prime/node/basicnode"
+	"os"
 	"strconv"
 	"strings"
 
@@ -140,7 +142,9 @@ func EventsJSON(v val.V) (string, bool) {
 	return "", false
 }
 
-func isValidUTF8(s string) bool { return strings.ToValidUTF8(s, "�") == s && !strings.Contains(s, "�") }
+func isValidUTF8(s string) bool {
+	return strings.ToValidUTF8(s, "�") == s && !strings.Contains(s, "�")
+}
 
 // typedProto returns the prototype for the level.
 func TypedProto(p schema.TypedPrototype, level int) datamodel.NodePrototype {
@@ -191,6 +195,88 @@ func FeedInto(nb datamodel.NodeBuilder, npName string, events val.V, via string,
 	return n, true, true, nil
 }
 
+// FeedRepeating assembles the top-level map events into nb entry by entry (drawn call styles), and before entry
+// `at` (1..len; len = after the last entry, so that Finish is the very next call) offers the key of an earlier
+// entry once more through route style%3 (AssembleEntry, key AssignString, key AssignNode). The offer must be
+// refused with a repeated-key error and everything else must go on as if it had not been made. deferredOK: the
+// engine's key assembler cannot see its map, so the refusal may come from the first call on the value assembler.
+func FeedRepeating(nb datamodel.NodeBuilder, events val.V, prog []byte, at, which, style int, deferredOK bool) (n datamodel.Node, err error) {
+	p := nodes.NewProg(prog)
+	err = evid.Guard("assembling with a repeated key", func() error {
+		ma, err := nb.BeginMap(int64(len(events.Ents)))
+		if err != nil {
+			return fmt.Errorf("BeginMap: %w", err)
+		}
+		offer := func(i int) error {
+			dup := events.Ents[which%i].K
+			var rerr error
+			how := ""
+			switch style % 3 {
+			case 0:
+				how = "AssembleEntry"
+				_, rerr = ma.AssembleEntry(dup)
+			case 1:
+				how = "AssembleKey().AssignString"
+				rerr = ma.AssembleKey().AssignString(dup)
+			default:
+				how = "AssembleKey().AssignNode"
+				rerr = ma.AssembleKey().AssignNode(basicnode.NewString(dup))
+			}
+			if rerr == nil && deferredOK && style%3 != 0 {
+				how += " + AssembleValue().AssignNull"
+				rerr = ma.AssembleValue().AssignNull()
+			}
+			if rerr == nil {
+				return fmt.Errorf("%s accepted the repeated key %s before entry %d", how, val.Txt(dup), i)
+			}
+			var rk datamodel.ErrRepeatedMapKey
+			var rkp *datamodel.ErrRepeatedMapKey
+			if !errors.As(rerr, &rk) && !errors.As(rerr, &rkp) {
+				return fmt.Errorf("%s of the repeated key %s returned %T (%v), not a repeated-key error", how, val.Txt(dup), rerr, rerr)
+			}
+			return nil
+		}
+		for i, e := range events.Ents {
+			if i == at {
+				if err := offer(i); err != nil {
+					return err
+				}
+			}
+			var va datamodel.NodeAssembler
+			switch p.Next(3) {
+			case 0:
+				if va, err = ma.AssembleEntry(e.K); err != nil {
+					return fmt.Errorf("AssembleEntry(%s) (a repeated key was refused before entry %d): %w", val.Txt(e.K), at, err)
+				}
+			case 1:
+				if err := ma.AssembleKey().AssignString(e.K); err != nil {
+					return fmt.Errorf("AssembleKey().AssignString(%s) (a repeated key was refused before entry %d): %w", val.Txt(e.K), at, err)
+				}
+				va = ma.AssembleValue()
+			default:
+				if err := ma.AssembleKey().AssignNode(basicnode.NewString(e.K)); err != nil {
+					return fmt.Errorf("AssembleKey().AssignNode(%s) (a repeated key was refused before entry %d): %w", val.Txt(e.K), at, err)
+				}
+				va = ma.AssembleValue()
+			}
+			if err := nodes.Assemble(va, e.V, p, 1); err != nil {
+				return fmt.Errorf("value of %s: %w", val.Txt(e.K), err)
+			}
+		}
+		if at >= len(events.Ents) {
+			if err := offer(len(events.Ents)); err != nil {
+				return err
+			}
+		}
+		if err := ma.Finish(); err != nil {
+			return fmt.Errorf("Finish (a repeated key was refused before entry %d): %w", at, err)
+		}
+		n = nb.Build()
+		return nil
+	})
+	return n, err
+}
+
 func HasDup(v val.V) bool {
 	return v.Has(func(x val.V) bool {
 		seen := map[string]bool{}
@@ -203,4 +289,3 @@ func HasDup(v val.V) bool {
 		return false
 	})
 }
-
